@@ -272,10 +272,13 @@ func evalLog(r *evid.Run, alpha []*regattapb.Command, log []int, withInterp bool
 			r.Violate("batching/"+s, fmt.Sprintf("cuts=%b: %s; canonical: %s", cuts, got, canon), c)
 		}
 	}
+	// longer logs: interpositions only after the last entry (what a flush, a restart or a snapshot
+	// transfer makes of the COMPLETE history, e.g. tombstones meeting overwritten versions)
+	first := 1
 	if !withInterp {
-		return
+		first = n
 	}
-	for at := 1; at <= n; at++ {
+	for at := first; at <= n; at++ {
 		for _, ip := range interps {
 			if strings.HasSuffix(ip, ":stale") && at < 2 {
 				continue
@@ -305,7 +308,7 @@ func Run(r *evid.Run) {
 	if r.Thorough() {
 		depth, idepth = 4, 3
 	}
-	r.Rule(fmt.Sprintf("every log of length 0..%d over a %d-entry alphabet (puts, deletes, range delete, toggling and empty-branch transactions, sequences/entries with and without leader index, leader-index reset, batches; non-dense entry indices) x ALL 2^(n-1) ways to cut it into apply calls on fresh real FSMs; for logs of length <= %d additionally at every cut point one of {Sync, close+reopen, snapshot save + recover into a fresh or a stale replica for all 4 saver/receiver format pairs} under two batchings. Oracle: per-entry results, full content, GetHash, applied and leader index identical to the one-entry-per-call run, which itself must equal the sorted-map model. Non-trivial: the log changed the model state or returned a response; distinct = distinct canonical observations", depth, len(alpha), idepth))
+	r.Rule(fmt.Sprintf("every log of length 0..%d over a %d-entry alphabet (puts, deletes, range delete, toggling and empty-branch transactions, sequences/entries with and without leader index, leader-index reset, batches; non-dense entry indices) x ALL 2^(n-1) ways to cut it into apply calls on fresh real FSMs; for logs of length <= %d additionally at every cut point (longer logs: after the last entry) one of {Sync, close+reopen, snapshot save + recover into a fresh or a stale replica for all 4 saver/receiver format pairs} under two batchings. Oracle: per-entry results, full content, GetHash, applied and leader index identical to the one-entry-per-call run, which itself must equal the sorted-map model. Non-trivial: the log changed the model state or returned a response; distinct = distinct canonical observations", depth, len(alpha), idepth))
 	total := par.SeqCount(len(alpha), depth)
 	done := par.For(total, r.Expired, func(i int64) {
 		log := par.SeqAt(len(alpha), depth, i)
